@@ -16,7 +16,7 @@ RULE = ("E1 discrete: every multiset of <=k rows over (X,Y,Z1[,Z2]) plus exactly
         "each variable: pearsonr with |Z| in {0,1,2} == Pearson on least-squares residuals with intercept, invariant under the "
         "affine maps. non-trivial = distinct data sets with >=2 non-degenerate strata, or a degenerate stratum, or a zero cell")
 BOUNDS = {"quick": "domains (3,2,2): multisets of <=4 rows (1819); (2,2,2,2): <=3 rows (968); 60 independent tables; continuous: 6^3 column triples + 120 with Z2",
-          "thorough": "multisets of <=5 rows / <=4 rows; lambda grid on all"}
+          "thorough": "multisets of <=5 rows / <=4 rows; lambda grid on all; domains (3,3,2) and (2,2,3) with <=4 rows, (2,3,2,2) with <=3 rows"}
 EXHAUSTIVE = {"quick": True, "thorough": True}
 ASSUMPTIONS = ["scipy.stats.chi2.sf / t.sf and numpy.linalg.lstsq are trusted", "lambda<0 statistics are compared only on tables without zero cells (undefined otherwise)",
                "continuous frames with (numerically) zero residual variance are excluded (correlation undefined)"]
@@ -28,7 +28,10 @@ LAMBDAS = [("pearson", 1.0), ("log-likelihood", 0.0), (2.0 / 3, 2.0 / 3), ("free
 
 def groups(tier, seed):
     out = []
-    for dom, k in (((3, 2, 2), 4 if tier == "quick" else 5), ((2, 2, 2, 2), 3 if tier == "quick" else 4)):
+    doms = [((3, 2, 2), 4 if tier == "quick" else 5), ((2, 2, 2, 2), 3 if tier == "quick" else 4)]
+    if tier == "thorough":
+        doms += [((3, 3, 2), 4), ((2, 3, 2, 2), 3), ((2, 2, 3), 4)]
+    for dom, k in doms:
         n = int(np.prod(dom))
         sets = []
         for r in range(1, k + 1):
@@ -139,6 +142,9 @@ def _disc(st, dom, idxs, cat=False, table=None):
         variant = "cat"
         for c in cols:
             df[c] = pd.Categorical([f"{c.lower()}{v}" for v in df[c]])
+    if sum(idxs) % 3 == 1:
+        # the frame's index is not content: descending, gapped labels on every third data set
+        df.index = [3 * (len(df) - i) + 2 for i in range(len(df))]
     st.states += 1
     zsets = [[], ["Z1"]] + ([["Z2"], ["Z1", "Z2"], ["Z2", "Z1"]] if len(dom) == 4 else [])
     base = {"part": "disc", "dom": list(dom), "set": list(idxs), "cat": variant == "cat", "variant": variant}
@@ -292,8 +298,18 @@ def _cont(st, xi):
                     for c in df0.columns:
                         for nm, f in (("+1", lambda v: v + 1), ("-1", lambda v: v - 1), ("+10", lambda v: v + 10), ("*2", lambda v: v * 2), ("/2", lambda v: v / 2)):
                             variants.append((c + nm, {c: f}))
+                    # the frame's index is not content: rows reordered with their labels kept, string labels, a gapped index
+                    variants += [("idx-perm", "perm"), ("idx-str", "str"), ("idx-gap", "gap")]
                     for vname, tr in variants:
                         df = df0.copy()
+                        if isinstance(tr, str):
+                            if tr == "perm":
+                                df = df.iloc[[(3 * i + 1) % len(df) for i in range(len(df))]]
+                            elif tr == "str":
+                                df.index = [f"r{i}" for i in range(len(df))]
+                            else:
+                                df.index = [2 * i + 5 for i in range(len(df))]
+                            tr = {}
                         for c, f in tr.items():
                             df[c] = f(df[c])
                         case = dict(base, variant=vname)
@@ -306,7 +322,7 @@ def _cont(st, xi):
                             continue
                         st.compared += 1
                         if not (abs(float(coef) - ref[0]) <= 1e-7 and abs(float(p) - ref[1]) <= 1e-7):
-                            st.violation("pearsonr", "wrong-statistic" if vname == "id" else "not-affine-invariant", case, [float(coef), float(p)], list(ref))
+                            st.violation("pearsonr", "wrong-statistic" if vname == "id" else "depends-on-frame-index" if vname.startswith("idx") else "not-affine-invariant", case, [float(coef), float(p)], list(ref))
                             break
                         st.outcome(round(ref[0], 6))
                         b = pearsonr(X="X", Y="Y", Z=Z, data=df, boolean=True, significance_level=0.05)
